@@ -130,7 +130,7 @@ def gen_extreme(rng, prop, run_seed, dims=(1, 1, 2, 3)):
             "offset": rng.choice([0.0, 1.0, -3.0]), "value_type": rng.choice([None, None, "np.float64"]),
             "params": {"r": G.gen_r(rng), "eps": G.gen_eps(rng, N), "itersLimit": rng.randint(2, 60), "refineSolution": False,
                        "evolventDensity": rng.choice([10, 10, rng.randint(2, 12)])},
-            "pre": rng.choice([0, 0, rng.randint(1, 5)]), "wall_s": 6,
+            "pre": rng.choice([0, 0, rng.randint(1, 5)]), "cpu_s": 5,
             # a barrier objective: beyond the level of its first evaluation it answers with a non-finite number
             "barrier": rng.choice([None, None, None, "inf", "inf", "-inf", "nan"])}
 
@@ -174,14 +174,18 @@ def run_extreme(plan):
 
     def on_alarm(signum, frame):
         fired.append(len(calls))
-        raise core.WatchdogStop("watchdog: Solve did not return within %s s of CPU time" % plan["wall_s"])
+        # the verdict is settled (the run is reported as not terminating); what follows only gets the process back: Solve
+        # swallows the exception raised here and would loop on, so its budget is declared used up as well
+        sp.itersLimit = 0
+        raise core.WatchdogStop("watchdog: Solve did not return within %s s of CPU time" % plan.get("cpu_s", 5))
     pr = plan["params"]
-    solver = Solver(P(), SolverParameters(eps=pr["eps"], r=pr["r"], itersLimit=pr["itersLimit"], refineSolution=False,
-                                          evolventDensity=int(pr.get("evolventDensity", 10))))
+    sp = SolverParameters(eps=pr["eps"], r=pr["r"], itersLimit=pr["itersLimit"], refineSolution=False,
+                          evolventDensity=int(pr.get("evolventDensity", 10)))
+    solver = Solver(P(), sp)
     # (the watchdog runs on the process's CPU time, not on the wall clock: a hang inside the library burns CPU, whereas a busy
     # machine must not turn a slow run into an alarm)
     old = signal.signal(signal.SIGVTALRM, on_alarm)
-    signal.setitimer(signal.ITIMER_VIRTUAL, float(plan["wall_s"]))
+    signal.setitimer(signal.ITIMER_VIRTUAL, float(plan.get("cpu_s", 5)), 0.5)
     raised = None
     sol = None
     try:
@@ -194,7 +198,8 @@ def run_extreme(plan):
             raised = type(e).__name__
         sol = solver.Solve()
     except core.WatchdogStop:
-        pass
+        if not fired:
+            raise            # (the runner's own wall watchdog, not this run's CPU watchdog)
     finally:
         signal.setitimer(signal.ITIMER_VIRTUAL, 0.0)
         signal.signal(signal.SIGVTALRM, old)
@@ -369,7 +374,7 @@ class C03(SolverSuite):
             if facts["fired"]:
                 rep.violations.append(core.Violation(self.prop, "no_termination", "%s: Solve was still running after %s s of CPU time with %d "
                                                      "evaluations made (itersLimit=%d); it only came back because the watchdog interrupted it"
-                                                     % (facts["what"], plan["wall_s"], facts["fired"][0], pr["itersLimit"]), "Solve"))
+                                                     % (facts["what"], plan.get("cpu_s", 5), facts["fired"][0], pr["itersLimit"]), "Solve"))
             elif len(facts["calls"]) > max(pr["itersLimit"], int(plan.get("pre") or 0)) + 1:
                 rep.violations.append(core.Violation(self.prop, "budget", "%s: %d evaluations, itersLimit=%d"
                                                      % (facts["what"], len(facts["calls"]), pr["itersLimit"]), "Solve"))
